@@ -160,7 +160,11 @@ class Ctx:
         self.states = set()  # abstract states
         self.bigrams = set()
         self.discards = Counter()
+        self.sets = {}  # named sets of things reached (e.g. distinct rank schedules), merged over the batch
         self._last_op = None
+
+    def reached(self, name: str, value) -> None:
+        self.sets.setdefault(name, set()).add(value)
 
     def avoids(self, key: str) -> bool:
         """True when the generator / oracle must steer around a finding that is listed as open, so that
@@ -345,6 +349,8 @@ def execute(world_cls, seed: int, tier: str, cfg: dict = None, ops: list = None,
         "phys_time": ctx.phys_time,
         "states": sorted(ctx.states),
         "bigrams": sorted("%s>%s" % b for b in ctx.bigrams),
+        "sets": {k: sorted(v) for k, v in ctx.sets.items()},
+        "run_discards": dict(ctx.discards),
         "trace_hash": th,
         "nontrivial": bool(ctx.mutations >= 3 and ctx.checks >= 1),
         "events": len(ctx.events),
